@@ -153,7 +153,11 @@ def search(chk, broken):
             nl, hl, tl = none_[-1], head[-1], tail[-1]
             dh_h, dh_t = hl.height.raw_value - nl.height.raw_value, tl.height.raw_value - nl.height.raw_value
             dt_h, dt_t = hl.time - nl.time, tl.time - nl.time
-            if not (dh_h * dh_t < 0 and dt_h * dt_t < 0):
+            # time of flight: opposite senses on every sight line.  Height at a fixed distance: opposite senses for flat fire only - on a
+            # steep sight line a horizontal wind also moves the projectile ALONG its inclined path (reaching the distance earlier in a steep
+            # climb means lower), which can outweigh the change in gravity drop, so both winds may lower it (seen at +57 deg, 6 s of flight)
+            flat_fire = abs(shot.look_angle >> U.Degree) <= 10.0
+            if not (dt_h * dt_t < 0 and (dh_h * dh_t < 0 or not flat_fire)):
                 chk.failures.append(Failure('head-tail', 'head and tail wind do not change drop and time of flight in opposite senses',
                                             {'op': 'head-tail', 'heights_in': [hl.height.raw_value, nl.height.raw_value, tl.height.raw_value],
                                              'times': [hl.time, nl.time, tl.time]}))
